@@ -289,6 +289,7 @@ type obGroup struct {
 func (cc *checkCtx) report(obs []*Obligation, reports []*FuncReport, writeBaseline bool) int {
 	s := cc.s
 	total, discharged := 0, 0
+	slicedN := 0
 	var failed []*Obligation
 	var unknown []*Obligation
 	knownStillFails := map[string]bool{}
@@ -349,6 +350,9 @@ func (cc *checkCtx) report(obs []*Obligation, reports []*FuncReport, writeBaseli
 		case "unsat":
 			discharged++
 			okNames[name] = true
+			if o.Res.Sliced {
+				slicedN++
+			}
 		case "sat":
 			failed = append(failed, o)
 			badNames[name] = true
@@ -592,7 +596,7 @@ func (cc *checkCtx) replayNoInput(o *Obligation, why string) string {
 	var b strings.Builder
 	fmt.Fprintf(&b, "property: %s\nfailed obligation: %s\nclause: %s\npath: %d\nsite: %s\nclass: %s\nreason: %s\n", cc.prop, o.Name(), o.Src, o.Path, o.Site, classOf(o), why)
 	fmt.Fprintf(&b, "solver answer: %s (%s)\nper-backend: %v\n--- solver output ---\n%s\n", o.Res.Status, o.Res.Backend, o.Res.Agree, o.Res.Raw)
-	if q, ok := cc.s.m.queryOf[o]; ok {
+	if q, ok := cc.s.m.fullQueryOK(cc.s.smt, o); ok {
 		fmt.Fprintf(&b, "--- query (SMT-LIB) ---\n%s\n", q)
 	}
 	os.WriteFile(path, []byte(b.String()), 0o644)
